@@ -138,21 +138,14 @@ def get_type_graph(t: type) -> graphlib.TopologicalSorter[TypeNode]:
             #   wrap in a ForwardRef and don't add it to the stack
             #   This will terminate this edge to prevent infinite cycles.
             if is_visited and can_be_cyclic:
-                qualname = inspection.qualname(child)
-                *rest, refname = qualname.split(".", maxsplit=1)
                 is_argument = var is not None
-                module = ".".join(rest) or getattr(child, "__module__", None)
-                if module in (None, "__main__") and rest:
-                    module = rest[0]
                 is_class = inspect.isclass(child)
-                # A class knows its own module (a dotted qualname means a nested class, not a module path).
-                if is_class:
-                    module = getattr(child, "__module__", module)
-                ref = refs.forwardref(
-                    child, is_argument=is_argument, module=module, is_class=is_class
-                )
+                # Name the references exactly as a `TypeContext` lookup of the type does
+                #   (`refs.forwardref(<type>)`), so the routine stored for the deferred
+                #   node is found when a consumer looks the member up by its type.
+                ref = refs.forwardref(child, is_argument=is_argument, is_class=is_class)
                 uref = refs.forwardref(
-                    unwrapped, is_argument=is_argument, module=module, is_class=is_class
+                    unwrapped, is_argument=is_argument, is_class=is_class
                 )
                 node = TypeNode(ref, uref, var=var, cyclic=True)
             # Otherwise, add the type to the stack and track that it's been seen.
